@@ -100,6 +100,8 @@ type Lemma struct {
 }
 
 type Contracts struct {
+	NonNilParams []string // parameter types (as printed by go/types) assumed non-nil, from trusted specs
+	NonNilFields map[string]bool // "<named type string>.<field>" assumed non-nil when loaded, from trusted specs
 	Funcs      []*FuncContract
 	Ghosts     map[string]*Ghost
 	GhostOrder []string
@@ -228,6 +230,21 @@ func (cs *Contracts) parseLines(lines []string, lineNos []int, file, pkgPath str
 			cur = &FuncContract{Key: l, PkgPath: pkgPath, Name: name, Iface: true, Trusted: trusted, File: file, Line: ln}
 			cs.Funcs = append(cs.Funcs, cur)
 			ord = map[string]int{}
+		case strings.HasPrefix(l, "assume nonnil field "):
+			if !trusted {
+				return errf("assumptions are only allowed in trusted specs")
+			}
+			if cs.NonNilFields == nil {
+				cs.NonNilFields = map[string]bool{}
+			}
+			cs.NonNilFields[strings.TrimSpace(strings.TrimPrefix(l, "assume nonnil field "))] = true
+			cur = nil
+		case strings.HasPrefix(l, "assume nonnil param "):
+			if !trusted {
+				return errf("assumptions are only allowed in trusted specs")
+			}
+			cs.NonNilParams = append(cs.NonNilParams, strings.TrimSpace(strings.TrimPrefix(l, "assume nonnil param ")))
+			cur = nil
 		case strings.HasPrefix(l, "ghost func "):
 			m := reGhostFn.FindStringSubmatch(l)
 			if m == nil {
